@@ -11,18 +11,21 @@ import "github.com/gobuffalo/plush/v5/helpers/hctx"
 // than or equal to `size`, `trail` will be returned
 // completely as is. Defaults to a `trail` of `...`.
 func Truncate(s string, opts hctx.Map) string {
-	if opts["size"] == nil {
-		opts["size"] = 50
+	// the options belong to the caller (a map kept in the context data may
+	// be shared by concurrent renders): defaults are not written into them
+	sizeOpt, trailOpt := opts["size"], opts["trail"]
+	if sizeOpt == nil {
+		sizeOpt = 50
 	}
-	if opts["trail"] == nil {
-		opts["trail"] = "..."
+	if trailOpt == nil {
+		trailOpt = "..."
 	}
 	runesS := []rune(s)
-	size := opts["size"].(int)
+	size := sizeOpt.(int)
 	if len(runesS) <= size {
 		return s
 	}
-	trail := opts["trail"].(string)
+	trail := trailOpt.(string)
 	runesTrail := []rune(trail)
 	if len(runesTrail) >= size {
 		return trail
